@@ -1106,9 +1106,9 @@ def gen_op(rng, gen, s: Session):
                 i = rng.randrange(len(path))
                 path[i] = rng.choice([99, -1, "nope", None])
         return ["path", path]
-    if x < 0.72:
-        return ["save"]
     if x < 0.78:
+        if s.saved is None or (x < 0.70 and rng.random() < 0.5):
+            return ["save"]
         return ["restore"]
     # ---- contents mutations
     n = rng.choice(conts)
@@ -1311,9 +1311,17 @@ def shrink(case, sig):
 # ====================================================================== entry points
 
 
+KNOWN: dict = {}
+
+
 def report(ctx, case, sess, shrunk_sigs):
     for sig, msg in sess.viol:
         w = case
+        if sig in KNOWN:
+            # already classified: keep the cost of shrinking for new signatures
+            shrunk_sigs.add(sig)
+            ctx.violation(sig, msg, dict(case, ops=case["ops"][: sess.nops]))
+            continue
         if sig not in shrunk_sigs:
             shrunk_sigs.add(sig)
             try:
@@ -1325,7 +1333,7 @@ def report(ctx, case, sess, shrunk_sigs):
             # cheap cut: keep only the ops executed so far
             w = dict(case, ops=case["ops"][: sess.nops])
             if len(w["ops"]) > 12:
-                ctx.violation(sig, msg, {"note": "longer duplicate of an already shrunk witness", "nops": len(w["ops"])})
+                ctx.count("violation_repeats_not_reshrunk")
                 continue
         ctx.violation(sig, msg, w)
 
@@ -1359,6 +1367,9 @@ def run(ctx):
     )
     for K in (urwid.Pile, urwid.Columns, urwid.GridFlow, urwid.Frame, urwid.Overlay):
         reach.watch(K.focus_position.fset)
+    from vmon.core import load_findings
+
+    KNOWN.update(load_findings(PROPERTY))
     rng = ctx.rng
     nops = ctx.pick(20, 40)
     shrunk: set[str] = set()
